@@ -519,9 +519,61 @@ package opset13
 //@   ensures y_h_is_1_batch_hidden: err == nil ==> rank(result[1]) == 3 && dim(result[1], 0) == 1 && dim(result[1], 1) == old(dim(inputs[0], 1)) && dim(result[1], 2) == self.hiddenSize
 //@   ensures hidden_size_unchanged: self.hiddenSize == old(self.hiddenSize)
 
+//@ spec mm_prank(t tensor.Tensor) int = maxi(rank(t), 2)
+//@ spec mm_R(a tensor.Tensor, b tensor.Tensor) int = maxi(mm_prank(a), mm_prank(b))
+//@ spec mm_bdim(t tensor.Tensor, r int, k int) int = ite(rank(t) == 1, 1, adim(t, r, k))
+//@ spec mm_drop(t tensor.Tensor) int = ite(rank(t) == 1, 1, 0)
+
+//@ func (*MatMul).Apply
+//@   tags C04,C02
+//@   requires self != nil
+//@   scope inputs_validated: len(inputs) == 2 && inputs[0] != nil && inputs[1] != nil
+//@   scope at_least_vectors: rank(inputs[0]) >= 1 && rank(inputs[1]) >= 1 && dims_positive(inputs[0]) && dims_positive(inputs[1]) &&
+//@          blen(inputs[0]) == nelems(shapeof(inputs[0])) && blen(inputs[1]) == nelems(shapeof(inputs[1]))
+//@   modifies opstate(self)
+//@   ensures matrix_times_matrix: rank(inputs[0]) == 2 && rank(inputs[1]) == 2 && err == nil ==> len(result) == 1 && result[0] != nil && rank(result[0]) == 2 &&
+//@          dim(result[0], 0) == dim(inputs[0], 0) && dim(result[0], 1) == dim(inputs[1], 1) && contents(result[0]) == k_matmul(contents(inputs[0]), contents(inputs[1]))
+//@   ensures matrix_inner_extents_differ_refused: rank(inputs[0]) == 2 && rank(inputs[1]) == 2 && dim(inputs[0], 1) != dim(inputs[1], 0) ==> err != nil
+//@   ensures batch_extents_incompatible_refused: (rank(inputs[0]) != 2 || rank(inputs[1]) != 2) &&
+//@          (exists k :: 0 <= k && k < mm_R(inputs[0], inputs[1]) - 2 && !compat_dim(mm_bdim(inputs[0], mm_R(inputs[0], inputs[1]), k), mm_bdim(inputs[1], mm_R(inputs[0], inputs[1]), k))) ==> err != nil
+//@   ensures one_result: err == nil ==> len(result) == 1 && result[0] != nil && dtype(result[0]) == dtype(inputs[0])
+//@   ensures result_rank: err == nil ==> rank(result[0]) == mm_R(inputs[0], inputs[1]) - mm_drop(inputs[0]) - mm_drop(inputs[1])
+//@   ensures batch_extents_broadcast: err == nil ==> (forall k :: 0 <= k && k < mm_R(inputs[0], inputs[1]) - 2 ==>
+//@          dim(result[0], k) == bdim(mm_bdim(inputs[0], mm_R(inputs[0], inputs[1]), k), mm_bdim(inputs[1], mm_R(inputs[0], inputs[1]), k)))
+//@   ensures rows_of_the_left_operand: err == nil && rank(inputs[0]) >= 2 ==> dim(result[0], mm_R(inputs[0], inputs[1]) - 2) == dim(inputs[0], rank(inputs[0]) - 2)
+//@   before batchedMatMul assert operands_are_stacks_of_the_common_rank: rank($arg1) == mm_R(inputs[0], inputs[1]) && rank($arg2) == mm_R(inputs[0], inputs[1])
+//@   before batchedMatMul assert left_contraction_extent_is_last: dim($arg1, rank($arg1) - 1) == dim(inputs[0], rank(inputs[0]) - 1)
+//@   before batchedMatMul assert right_contraction_extent_is_second_to_last: dim($arg2, rank($arg2) - 2) == ite(rank(inputs[1]) == 1, dim(inputs[1], 0), dim(inputs[1], rank(inputs[1]) - 2))
+//@   before batchedMatMul assert rows_in_place: dim($arg1, rank($arg1) - 2) == ite(rank(inputs[0]) == 1, 1, dim(inputs[0], rank(inputs[0]) - 2))
+//@   before batchedMatMul assert columns_in_place: dim($arg2, rank($arg2) - 1) == ite(rank(inputs[1]) == 1, 1, dim(inputs[1], rank(inputs[1]) - 1))
+//@   ensures columns_of_the_right_operand: err == nil && rank(inputs[1]) >= 2 ==> dim(result[0], rank(result[0]) - 1) == dim(inputs[1], rank(inputs[1]) - 1)
+
+//@ spec mm_r(a tensor.Tensor, b tensor.Tensor) int = maxi(rank(a), rank(b))
+
+//@ func (*MatMul).broadcastTensors
+//@   tags C04,C02
+//@   requires A != nil && B != nil
+//@   scope stacks_of_matrices: dims_positive(A) && dims_positive(B) && rank(A) >= 2 && rank(B) >= 2
+//@   ensures batch_extents_incompatible_refused: (exists k :: 0 <= k && k < mm_r(A, B) - 2 && !compat_dim(adim(A, mm_r(A, B), k), adim(B, mm_r(A, B), k))) ==> err != nil
+//@   ensures batch_extents_compatible_accepted: (forall k :: 0 <= k && k < mm_r(A, B) - 2 ==> compat_dim(adim(A, mm_r(A, B), k), adim(B, mm_r(A, B), k))) ==> err == nil
+//@   ensures shapes: err == nil ==> result0 != nil && result1 != nil && allocated(result0) && allocated(result1) && rank(result0) == mm_r(A, B) && rank(result1) == mm_r(A, B) &&
+//@          dtype(result0) == dtype(A) && dtype(result1) == dtype(B) &&
+//@          (forall k :: 0 <= k && k < mm_r(A, B) - 2 ==> dim(result0, k) == bdim(adim(A, mm_r(A, B), k), adim(B, mm_r(A, B), k)) && dim(result1, k) == bdim(adim(A, mm_r(A, B), k), adim(B, mm_r(A, B), k))) &&
+//@          (forall k :: mm_r(A, B) - 2 <= k && k < mm_r(A, B) ==> dim(result0, k) == adim(A, mm_r(A, B), k) && dim(result1, k) == adim(B, mm_r(A, B), k))
+//@   loop 1 invariant 0 - 1 <= axis && axis <= mm_r(A0, B0) - 3 && len(shapeA) == mm_r(A0, B0) && len(shapeB) == mm_r(A0, B0) && A != nil && B != nil && allocated(A) && allocated(B) &&
+//@          rank(A) == mm_r(A0, B0) && rank(B) == mm_r(A0, B0) && dtype(A) == dtype(A0) && dtype(B) == dtype(B0) && allocated(shapeA) && allocated(shapeB) && wf(A) && wf(B)
+//@   loop 1 invariant forall k :: axis < k && k < mm_r(A0, B0) - 2 ==> compat_dim(shapeA[k], shapeB[k])
+//@   loop 1 invariant forall k :: axis < k && k < mm_r(A0, B0) - 2 ==> dim(A, k) == bdim(shapeA[k], shapeB[k])
+//@   loop 1 invariant forall k :: axis < k && k < mm_r(A0, B0) - 2 ==> dim(B, k) == bdim(shapeA[k], shapeB[k])
+//@   loop 1 invariant forall k :: (0 <= k && k <= axis) || (mm_r(A0, B0) - 2 <= k && k < mm_r(A0, B0)) ==> dim(A, k) == shapeA[k] && dim(B, k) == shapeB[k]
+
 //@ func (*MatMul).batchedMatMul
-//@   tags C02
+//@   tags C04,C02
+//@   requires A != nil && B != nil
+//@   scope stacks_of_matrices: dims_positive(A) && dims_positive(B) && rank(A) >= 2 && rank(B) >= 2
 //@   ensures new_result: err == nil ==> result != nil && fresh(result)
+//@   ensures result_shape: err == nil ==> rank(result) == rank(A) && dtype(result) == dtype(A) &&
+//@          (forall k :: 0 <= k && k < rank(A) - 1 ==> dim(result, k) == dim(A, k)) && dim(result, rank(A) - 1) == dim(B, rank(B) - 1)
 
 //@ func (*Scaler).Init
 //@   tags C04,C02
